@@ -597,6 +597,16 @@ def run(ck):
         c18_8(ck, prog)
         from rules.C07 import c07_9
         c07_9(ck, prog, 'C18.9')
+        from rules.C10 import c10_12
+        c10_12(ck, prog, 'C18.10')
+        from rules import listops
+        rq = ck.rule('C18.11', 'the list operations BecomeMonitor relies on to give up the names of the new monitor do what '
+                     'their names say, _dbus_list_copy included: a copy that could not be completed is reported as a '
+                     'failure, whichever link could not be allocated (shared with C04.10; abstract interpretation over '
+                     'all small lists and every failing allocation)', 'ABS', breaks='a name the copy skipped is not '
+                     'released: the connection becomes a monitor while still owning a name and is the addressee of calls '
+                     'to it', floor=15)
+        listops.check(prog, rq)
         # what a new monitor still has outstanding is disposed of by bus_connection_drop_pending_replies
         from rules.C09 import c09_3
         r7 = ck.rule('C18.7', 'dropping the pending replies of a connection (disconnect, BecomeMonitor) removes '
